@@ -219,6 +219,14 @@ def programs(tier):
     for i, a in enumerate(subs):
         for j, b in enumerate(pos_rules()):
             yield dict(kind='twopass', passes=[dict(rules=[a]), dict(rules=[b], positioning=True)], rtl=0, ids=(i, j))
+    # a first pass that sets a user attribute, then a pass with two rules (delete / insert / substitute ...): inserted slots must be fresh
+    firsts = [LRule([], [(IAB, [('user', 3)])]), LRule([], [(IA, [('user', 3)]), (IABCD, [])]), LRule([], [(IABCD, [('adv', 777)])])]
+    seconds = core[::4]
+    for i, a in enumerate(firsts):
+        for j, b in enumerate(seconds):
+            for k, c in enumerate(seconds):
+                if not thorough and (j + k) % 2: continue
+                yield dict(kind='attr_then_pair', passes=[dict(rules=[a]), dict(rules=[b, c])], rtl=0, ids=(i, j, k))
     # directions: RTL font, reverse-direction pass
     for i, a in enumerate(core[::2] if thorough else core[::8]):
         for rtl in (0, 1):
